@@ -249,7 +249,9 @@ class NDNApp:
         try:
             data_name, meta_info, content, sig, raw_packet = await aio.wait_for(future, timeout=lifetime/1000.0)
         except TimeoutError:
-            if node.timeout(future):
+            # A Data packet may have satisfied (and removed) the node in the same loop iteration the timer
+            # fired, and a newer node may sit at the same name: only delete this very node.
+            if node.timeout(future) and self._int_tree.get(node_name) is node:
                 del self._int_tree[node_name]
             raise InterestTimeout()
         except aio.CancelledError:
